@@ -398,7 +398,10 @@ def _finish(check, tier, seed, start, runs, good, harness_errors, truncated, wal
     if zero_probes and not quiet:
         log(f'warning: probes stuck at zero: {zero_probes}')
     if harness_errors:
-        rc = 2
+        # harness trouble never yields 0; a violation whose replay file was accepted (reproduced by the real replay command in
+        # fresh interpreters) stands on its own and keeps exit code 1 (e.g. a change that also makes some chunks time out)
+        if not (rc == 1 and replay_path is not None and _REPLAY_ACCEPTED.get(replay_path)):
+            rc = 2
         for h in harness_errors[:5]:
             log('HARNESS-ERROR ' + h)
     elif n_runs == 0 or distinct < 2:
@@ -456,6 +459,9 @@ def _finish(check, tier, seed, start, runs, good, harness_errors, truncated, wal
             f'runs/h={evidence["coverage"]["runs_per_hour"]} faults={dict(faults)} known_hits={dict(known_hits)} '
             f'unlisted={unlisted_n} rc={rc} batch_digest={batch_digest[:16]}')
     for line in out_lines:
+        if rc == 2 and line.startswith('VIOLATION '):
+            log('(not reported as a violation because the batch had harness trouble: ' + line + ')')
+            continue
         print(line)
     sys.stdout.flush()
     global _SERVER
@@ -566,6 +572,9 @@ def _server_eval(check, preceding, plan, sig):
     return _SERVER.eval(preceding, plan, sig)
 
 
+_REPLAY_ACCEPTED = {}
+
+
 def _replay_command_reproduces(check, path, times=2):
     """The acceptance test of a replay file: the real replay command, in brand-new interpreters, reproduces it every time."""
     import subprocess
@@ -576,6 +585,7 @@ def _replay_command_reproduces(check, path, times=2):
                            capture_output=True, text=True, timeout=900)
         if r.returncode != 1:
             return False
+    _REPLAY_ACCEPTED[path] = True
     return True
 
 
